@@ -195,57 +195,139 @@ def equalLoop (veq : V → V → Bool) (y : Tbl K V) : List (K × V) → Res Boo
 def equal (veq : V → V → Bool) (x y : Tbl K V) : Res Bool :=
   if x.elements ≠ y.elements then .ok false else equalLoop hash eqv veq y x.toList
 
-/-! ### sets (`V = Unit`): `vm/hash_set.go` -/
-
-/-- `HashSetOfValueAppendWithMaxLoad`: returns whether the value is new -/
-def sAppend (t : Tbl K Unit) (key : K) (num den : Nat) : Res (Tbl K Unit × Bool) :=
-  match containsKey hash eqv t key, setWithMaxLoad hash eqv t key () num den with
-  | .ok b, .ok t' => .ok (t', !b)
-  | _, _ => .panic
-
-/-- `HashSetOfValueUnion`: copy the longer set into a new table sized for both, append the shorter -/
-def sUnionLoop (acc : Tbl K Unit) : List (K × Unit) → Res (Tbl K Unit)
-  | [] => .ok acc
-  | (k, _) :: rest =>
-    match setWithMaxLoad hash eqv acc k () 3 4 with
-    | .panic => .panic
-    | .ok acc' => sUnionLoop acc' rest
-
-def sUnion (x y : Tbl K Unit) : Res (Tbl K Unit) :=
-  let longer := if x.elements > y.elements then x else y
-  let shorter := if x.elements > y.elements then y else x
-  match copy hash eqv (Tbl.new (shorter.elements + longer.elements)) longer with
-  | .panic => .panic
-  | .ok acc => sUnionLoop hash eqv acc shorter.toList
-
-/-- `HashSetOfValueIntersection` -/
-def sInterLoop (longer acc : Tbl K Unit) : List (K × Unit) → Res (Tbl K Unit)
-  | [] => .ok acc
-  | (k, _) :: rest =>
-    match containsKey hash eqv longer k with
-    | .panic => .panic
-    | .ok false => sInterLoop longer acc rest
-    | .ok true =>
-      match setWithMaxLoad hash eqv acc k () 3 4 with
-      | .panic => .panic
-      | .ok acc' => sInterLoop longer acc' rest
-
-def sInter (x y : Tbl K Unit) : Res (Tbl K Unit) :=
-  let longer := if x.elements > y.elements then x else y
-  let shorter := if x.elements > y.elements then y else x
-  sInterLoop hash eqv longer (Tbl.new 5) shorter.toList
-
-/-- `HashSetOfValueEqual` -/
-def sEqualLoop (y : Tbl K Unit) : List (K × Unit) → Res Bool
+/-- the loop of `HashSetOfValueEqual`: every key of the list is in `y` -/
+def keysIn (y : Tbl K V) : List (K × V) → Res Bool
   | [] => .ok true
   | (k, _) :: rest =>
     match containsKey hash eqv y k with
     | .panic => .panic
     | .ok false => .ok false
-    | .ok true => sEqualLoop y rest
+    | .ok true => keysIn y rest
 
-def sEqual (x y : Tbl K Unit) : Res Bool :=
-  if x.elements ≠ y.elements then .ok false else sEqualLoop hash eqv y x.toList
+/-- `HashSetOfValueEqual` -/
+def sEqual (x y : Tbl K V) : Res Bool :=
+  if x.elements ≠ y.elements then .ok false else keysIn hash eqv y x.toList
+
+/-! ### sets: `vm/hash_set.go` keeps the same table with the value slot unused; `Append` is
+`setWithMaxLoad`, `Delete`/`Contains` are `delete`/`containsKey`; union and intersection follow. -/
+
+/-! ### histories over several live tables (maps, records and sets alike) -/
+
+/-- state-changing operations; tables are numbered by creation -/
+inductive Op (K V : Type) where
+  | new (capacity : Nat)                 -- NewHashMapOfValue / NewHashSetOfValue
+  | set (m : Nat) (k : K) (v : V)        -- HashMapOfValueSet / HashSetOfValueAppend
+  | del (m : Nat) (k : K)                -- HashMapOfValueDelete / HashSetOfValueDelete
+  | setcap (m : Nat) (c : Nat)           -- …SetCapacity
+  | grow (m : Nat) (n : Nat)             -- …Grow
+  | clone (m : Nat)                      -- Clone / Copy(): same table contents
+  | clonecap (m : Nat) (c : Nat)         -- CloneHashMap(capacity) / CloneHashSet(capacity)
+  | cat (a b : Nat)                      -- HashMapOfValueConcat: clone a, Copy b into it
+  | copy (t s : Nat)                     -- HashMapOfValueCopy(target, source)
+  | union (a b : Nat)                    -- HashSetOfValueUnion
+  | inter (a b : Nat)                    -- HashSetOfValueIntersection
+
+/-- `HashSetOfValueUnion`/`Intersection` on tables whose values are irrelevant (`dflt` is stored) -/
+def unionLoop (dflt : V) (acc : Tbl K V) : List (K × V) → Res (Tbl K V)
+  | [] => .ok acc
+  | (k, _) :: rest =>
+    match setWithMaxLoad hash eqv acc k dflt 3 4 with
+    | .panic => .panic
+    | .ok acc' => unionLoop dflt acc' rest
+
+def union (dflt : V) (x y : Tbl K V) : Res (Tbl K V) :=
+  let longer := if x.elements > y.elements then x else y
+  let shorter := if x.elements > y.elements then y else x
+  match copy hash eqv (Tbl.new (shorter.elements + longer.elements)) longer with
+  | .panic => .panic
+  | .ok acc => unionLoop hash eqv dflt acc shorter.toList
+
+def interLoop (dflt : V) (longer acc : Tbl K V) : List (K × V) → Res (Tbl K V)
+  | [] => .ok acc
+  | (k, _) :: rest =>
+    match containsKey hash eqv longer k with
+    | .panic => .panic
+    | .ok false => interLoop dflt longer acc rest
+    | .ok true =>
+      match setWithMaxLoad hash eqv acc k dflt 3 4 with
+      | .panic => .panic
+      | .ok acc' => interLoop dflt longer acc' rest
+
+def inter (dflt : V) (x y : Tbl K V) : Res (Tbl K V) :=
+  let longer := if x.elements > y.elements then x else y
+  let shorter := if x.elements > y.elements then y else x
+  interLoop hash eqv dflt longer (Tbl.new 5) shorter.toList
+
+/-- one operation on the list of live tables: `none` = dangling table number, `panic` = Go panic
+(the state is then unchanged) -/
+def mstep (dflt : V) (objs : List (Tbl K V)) : Op K V → Option (Res (List (Tbl K V)))
+  | .new c => some (.ok (objs ++ [Tbl.new c]))
+  | .set m k v =>
+    match objs[m]? with
+    | none => none
+    | some t => match set hash eqv t k v with
+      | .ok t' => some (.ok (objs.set m t'))
+      | .panic => some .panic
+  | .del m k =>
+    match objs[m]? with
+    | none => none
+    | some t => match delete hash eqv t k with
+      | .ok (t', _) => some (.ok (objs.set m t'))
+      | .panic => some .panic
+  | .setcap m c =>
+    match objs[m]? with
+    | none => none
+    | some t => match setCapacity hash eqv t c with
+      | .ok t' => some (.ok (objs.set m t'))
+      | .panic => some .panic
+  | .grow m n =>
+    match objs[m]? with
+    | none => none
+    | some t => match setCapacity hash eqv t (t.cap + n) with
+      | .ok t' => some (.ok (objs.set m t'))
+      | .panic => some .panic
+  | .clone m =>
+    match objs[m]? with
+    | none => none
+    | some t => some (.ok (objs ++ [t]))
+  | .clonecap m c =>
+    match objs[m]? with
+    | none => none
+    | some t => match cloneCap hash eqv t c with
+      | .ok t' => some (.ok (objs ++ [t']))
+      | .panic => some .panic
+  | .cat a b =>
+    match objs[a]?, objs[b]? with
+    | some x, some y => match concat hash eqv x y with
+      | .ok t' => some (.ok (objs ++ [t']))
+      | .panic => some .panic
+    | _, _ => none
+  | .copy t s =>
+    match objs[t]?, objs[s]? with
+    | some x, some y => match copy hash eqv x y with
+      | .ok t' => some (.ok (objs.set t t'))
+      | .panic => some .panic
+    | _, _ => none
+  | .union a b =>
+    match objs[a]?, objs[b]? with
+    | some x, some y => match union hash eqv dflt x y with
+      | .ok t' => some (.ok (objs ++ [t']))
+      | .panic => some .panic
+    | _, _ => none
+  | .inter a b =>
+    match objs[a]?, objs[b]? with
+    | some x, some y => match inter hash eqv dflt x y with
+      | .ok t' => some (.ok (objs ++ [t']))
+      | .panic => some .panic
+    | _, _ => none
+
+/-- run a history; a panicking or ill-formed operation leaves the tables as they are -/
+def mrun (dflt : V) : List (Tbl K V) → List (Op K V) → List (Tbl K V)
+  | objs, [] => objs
+  | objs, op :: ops =>
+    match mstep hash eqv dflt objs op with
+    | some (.ok objs') => mrun dflt objs' ops
+    | _ => mrun dflt objs ops
 
 end
 
